@@ -24,6 +24,8 @@ InFields == << Ag("r", Nn(Nm("Int"))), Ag("l", Li(Nm("Int"))), Ag("n", Nm("In"))
 FArgs == << Ag("a", Nm("Int")), AgD("b", Nm("String"), [t |-> "str", v |-> "d"]) >>
 GArgs == << Ag("r", Nn(Nm("Int"))) >>
 ZArgs == << Ag("a", Nm("Sz")) >>
+\* the guarded argument with a DEFAULT the guard refuses: omitting the argument fails the field
+Gd2Args == << [name |-> "a", type |-> Nm("Int"), hasDefault |-> TRUE, default |-> [t |-> "int", v |-> 13], dirs |-> <<[name |-> "boom", args |-> <<>>]>>] >>
 \* an argument guarded by a directive whose on_argument_execution hook raises (a plain Python exception) for the value 13
 GdArgs == << [name |-> "a", type |-> Nm("Int"), hasDefault |-> FALSE, default |-> [t |-> "null", v |-> 0], dirs |-> <<[name |-> "boom", args |-> <<>>]>>],
              AgD("b", Nm("String"), [t |-> "str", v |-> "d"]) >>
@@ -45,7 +47,7 @@ TypesExec == [
                  s |-> Rs(Nm("String")), sn |-> Rs(Nn(Nm("String"))), i |-> Rs(Nm("Int")), e |-> Rs(Nm("E")),
                  le |-> Rs(Li(Nm("E"))), ls |-> Rs(Li(Nn(Nm("String")))), fl |-> Rs(Nm("Float")), lfl |-> Rs(Li(Nn(Nm("Float")))), idf |-> Rs(Nm("ID")), bo |-> Rs(Nm("Boolean")),
                  f |-> RsA(Nm("String"), FArgs), g |-> RsA(Nm("String"), GArgs), h |-> RsA(Nm("String"), HArgs),
-                 fz |-> RsA(Nm("String"), ZArgs), gd |-> RsA(Nm("String"), GdArgs),
+                 fz |-> RsA(Nm("String"), ZArgs), gd |-> RsA(Nm("String"), GdArgs), gd2 |-> RsA(Nm("String"), Gd2Args),
                  cs |-> RsA(Nm("Cs"), << Ag("a", Nm("Cs")) >>), csn |-> Rs(Nn(Nm("Cs"))), lcs |-> Rs(Li(Nn(Nm("Cs")))) ]],
   T |-> [kind |-> "OBJECT", possible |-> {"T"}, possibleSeq |-> <<"T">>, values |-> <<>>, way |-> "key", fields |-> TFields],
   P |-> [kind |-> "INTERFACE", possible |-> {"A", "B"}, possibleSeq |-> <<"A", "B">>, values |-> <<>>, way |-> "", fields |-> PFields],
